@@ -31,4 +31,10 @@ theorem blockpartmsg_round_guard : Facts.c10_blockpartmsg_round_guard = "m.Round
 /-- `enterCommit` replaces the part set it holds unless `HasHeader(committed header)` -/
 theorem entercommit_hasheader : Facts.c10_entercommit_hasheader = true := by decide
 
+/-- the gate in front of the part-set header (`proposal_header_complete`) and `Verify`'s refusal of a
+proof that computes no root (`shapeless_proof_never_verifies`, from the `fix:` commit) -/
+theorem proposal_complete_gate : Facts.c10_proposal_complete_gate = "!p.BlockID.IsComplete()" := by decide
+theorem blockid_iscomplete_root_size : Facts.c10_blockid_iscomplete = true := by decide
+theorem verify_nil_root_guard : Facts.c10_verify_nil_root_guard = "computedHash == nil" := by decide
+
 end Tmv.Expect.C10
